@@ -746,6 +746,15 @@ func (r *recorder) replayCase(path string) error {
 		}
 		r.execEqual([]byte(c.AText), []byte(c.BText), a, b)
 	default:
+		if f, ok := extraReplays[c.Fam]; ok {
+			var raw struct {
+				Case json.RawMessage `json:"case"`
+			}
+			if err := json.Unmarshal(b, &raw); err != nil {
+				return err
+			}
+			return f(r, raw.Case)
+		}
 		return fmt.Errorf("unknown trace family %q", c.Fam)
 	}
 	return nil
@@ -753,6 +762,7 @@ func (r *recorder) replayCase(path string) error {
 
 // families that exist only for the v5 module (they need the staged codec)
 var extraFamilies = map[string]func(*recorder){}
+var extraReplays = map[string]func(*recorder, json.RawMessage) error{}
 
 func main() {
 	fam := flag.String("fam", "patch", "patch | merge | create | compose | equal | mix")
